@@ -34,7 +34,7 @@ Lemma conv_setup gs st code embed st' go :
     reorient (go_data0 go) (go_aff0 go) code = Ok (go_data go, go_aff go, go_T go, go_ornt go) /\
     to_nifti st (vorder_of (files_info st2) code (go_ornt go)) embed = (st', Ok (go_nifti go)) /\
     rep_times st2 = rep_times st /\ pe_dirs st2 = pe_dirs st /\
-    go_dtype go = out_dtype (go_first go) /\
+    (gfiles_of gs (go_ord0 go) = Ok (go_files go) /\ out_dtype (go_files go) = Ok (go_dtype go)) /\
     go_perm go = ornt_perm (go_ornt go) /\ go_flips go = ornt_flips (go_ornt go).
 Proof.
   intros Hwf H.
